@@ -1,7 +1,9 @@
 // C09: default colour conversion between the core colour spaces (gray, rgb, rgba, cmyk), any layout, channel depths 8 / 16 / 32f.
 // Shape parameters (compile time): SRC_P, DST_P pixel value types; SRC_CS, DST_CS colour-space codes (0 gray, 1 rgb, 2 rgba, 3 cmyk).
-// Run time (vp_param): 16-bit / float sources may be stratified: bit k of vp_param(0) set => the upper byte (16-bit) resp. the
+// Run time (vp_param): sources may be stratified: bit k of vp_param(0) set => the value (8-bit), the upper byte (16-bit) resp. the
 // sign+exponent field (float) of semantic source channel k is the concrete value vp_param(1+k), the remaining bits stay symbolic.
+// Bit k of vp_param(6) set => semantic source channel k is entirely the concrete value vp_param(1+k) (float: its bit pattern).
+// vp_param(5) selects one assertion / one pixel position / one destination channel where an entry point says so.
 // Semantic channel order used by the oracle: gray (v) / rgb (r,g,b) / rgba (r,g,b,a) / cmyk (c,m,y,k), read with semantic_at_c<K>.
 #include <boost/gil.hpp>
 #include "vp.hpp"
@@ -23,7 +25,8 @@ template <class C, class = void> struct chan;
 template <class C> struct chan<C, typename std::enable_if<std::is_integral<C>::value>::type> {
     static constexpr bool integral = true;
     static C sym(int k) {
-        if (sizeof(C) == 1) return (C)vp_nondet_u8();
+        if (sizeof(C) == 1) { if ((vp_param(0) >> k) & 1) return (C)vp_param(1 + k); return (C)vp_nondet_u8(); }
+        if ((vp_param(6) >> k) & 1) return (C)vp_param(1 + k);
         if ((vp_param(0) >> k) & 1) { unsigned lo = vp_nondet_u8(); return (C)(((unsigned)vp_param(1 + k) << 8) | lo); }
         return (C)vp_nondet_u16();
     }
@@ -41,7 +44,8 @@ template <> struct chan<gil::float32_t, void> {
     static constexpr bool integral = false;
     static C sym(int k) {
         float f;
-        if ((vp_param(0) >> k) & 1) { unsigned m = vp_nondet_u32(); unsigned bits = ((unsigned)vp_param(1 + k) << 23) | (m & 0x7FFFFFu); __builtin_memcpy(&f, &bits, 4); }
+        if ((vp_param(6) >> k) & 1) { unsigned bits = (unsigned)vp_param(1 + k); __builtin_memcpy(&f, &bits, 4); }
+        else if ((vp_param(0) >> k) & 1) { unsigned m = vp_nondet_u32(); unsigned bits = ((unsigned)vp_param(1 + k) << 23) | (m & 0x7FFFFFu); __builtin_memcpy(&f, &bits, 4); }
         else f = vp_nondet_float();
         vp_assume(f >= 0.0f && f <= 1.0f); return C(f);
     }
@@ -160,21 +164,52 @@ void h_lum_mono(void) {
     if (which == 1) { SC g1 = scs::succ(g); vp_assert(dcs::le(y0, gil::semantic_at_c<0>(conv(csx<CS_RGB, SP>::mk(r, g1, b)))), "cc.lum_monotone_green"); }
     if (which == 2) { SC b1 = scs::succ(b); vp_assert(dcs::le(y0, gil::semantic_at_c<0>(conv(csx<CS_RGB, SP>::mk(r, g, b1)))), "cc.lum_monotone_blue"); }
 }
-// (4b) within one unit of 0.30r+0.59g+0.11b.  The unit is one level of the coarser of the two channel types.
-// integral/integral: |100*ms*y - md*(30r+59g+11b)| <= 100*max(ms,md) in exact integers (ms, md = channel maxima);
-// float involved: the same inequality in double with the float side's maximum taken as 1 and the unit as one level of the
-// integral side (float -> float: 2^-20, i.e. a few float32 ulps of the weighted sum)
+// (4b) within one unit of 0.30r+0.59g+0.11b.  The unit is one level of the coarser of the two channel types, i.e. with ms, md the
+// channel maxima, T = 30r+59g+11b and y the gray result the claim is   |100*ms*y - md*T| <= 100*max(ms,md).
+// 8-bit sources (fixed-point path): the direct inequality is a 24-bit linear-arithmetic cancellation that no SAT back end decided in
+// 200 s, so it is proved in two steps.  With N = 4915r+9667g+1802b (the library's weights over 16384):
+//   A (solver, all 2^24 pixels):  |16384*ms*y - md*N| <= (16384-113)*max(ms,md)
+//   B (static_assert, constants):  |100*N - 16384*T| = |-20r + 44g - 24b| <= 255*44 = 11220 <= 11300
+//   100*A + md*B  =>  16384*|100*ms*y - md*T| <= 16384*100*max(ms,md), which is the claim.
+// A is 0.7 % tighter than the claim itself; nothing else about the implementation is assumed.
+// other integral sources / float (generic float path, thorough tier): the claim directly, in exact 64-bit integers resp. in double
+// (float -> float: tolerance 2^-20, a few float32 ulps of the weighted sum).
 extern "C++" {
-template <class S_, class D_> static typename std::enable_if<chan<S_>::integral && chan<D_>::integral, bool>::type lum_ok(S_ r, S_ g, S_ b, D_ y) {
-    i128 ms = chan<S_>::hi(), md = chan<D_>::hi();
-    i128 e = 100 * ms * (i128)y - md * (30 * (i128)r + 59 * (i128)g + 11 * (i128)b);
-    i128 tol = 100 * (ms > md ? ms : md);
+constexpr long long LW_R = 4915, LW_G = 9667, LW_B = 1802, LW_DEN = 16384, LW_SLACK = 113;
+// 100*N - 16384*T = dr*r + dg*g + db*b with dr = -20, dg = +44, db = -24; over r,g,b in 0..255 its maximum is 255 * (sum of the positive
+// coefficients) and its minimum -255 * (sum of the negative ones)
+constexpr long long LD_R = 100 * LW_R - 30 * LW_DEN, LD_G = 100 * LW_G - 59 * LW_DEN, LD_B = 100 * LW_B - 11 * LW_DEN;
+constexpr long long gcd_c(long long a, long long b) { return b == 0 ? a : gcd_c(b, a % b); }
+constexpr long long pos_c(long long v) { return v > 0 ? v : 0; }
+static_assert(255 * (pos_c(LD_R) + pos_c(LD_G) + pos_c(LD_B)) <= 100 * LW_SLACK && 255 * (pos_c(-LD_R) + pos_c(-LD_G) + pos_c(-LD_B)) <= 100 * LW_SLACK, "step B of the luminance bound");
+template <class S_, class D_> static typename std::enable_if<chan<S_>::integral && chan<D_>::integral && sizeof(S_) == 1, bool>::type lum_ok(S_ r, S_ g, S_ b, D_ y) {
+    // ms, md divided by their gcd (255 -> 1 | 255, 65535 -> 1, 257): the same inequality with smaller constants
+    constexpr long long ms0 = (long long)std::numeric_limits<S_>::max(), md0 = (long long)std::numeric_limits<D_>::max();
+    constexpr long long gc = gcd_c(ms0, md0), ms = ms0 / gc, md = md0 / gc;
+    // N is written exactly as the library writes it (32-bit unsigned) so that the compiler shares the common subexpression
+    std::uint32_t n32 = std::uint32_t(r) * 4915 + std::uint32_t(g) * 9667 + std::uint32_t(b) * 1802;   // < 2^22
+    volatile std::uint32_t n_mem = n32;   // barrier: keeps the compiler from re-associating N into the comparison (a solver-hostile form)
+    long long n = (long long)n_mem;
+    long long e = LW_DEN * ms * (long long)y - md * n;
+    long long tol = (LW_DEN - LW_SLACK) * (ms > md ? ms : md);
+    return e <= tol && -e <= tol;
+}
+template <class S_, class D_> static typename std::enable_if<chan<S_>::integral && chan<D_>::integral && sizeof(S_) != 1, bool>::type lum_ok(S_ r, S_ g, S_ b, D_ y) {
+    // channel maxima are <= 65535, so every term is below 2^40: exact in 64-bit integers
+    long long ms = (long long)chan<S_>::hi(), md = (long long)chan<D_>::hi();
+    long long e = 100 * ms * (long long)y - md * (30 * (long long)r + 59 * (long long)g + 11 * (long long)b);
+    long long tol = 100 * (ms > md ? ms : md);
     return e <= tol && -e <= tol;
 }
 template <class S_, class D_> static typename std::enable_if<chan<S_>::integral && !chan<D_>::integral, bool>::type lum_ok(S_ r, S_ g, S_ b, D_ y) {
     double ms = (double)chan<S_>::hi();
+    if (sizeof(S_) == 1) {   // steps A/B as above with md = 1
+        double n = (double)(LW_R * (long long)r + LW_G * (long long)g + LW_B * (long long)b);
+        double e = (double)LW_DEN * ms * (double)(float)y - n, tol = (double)(LW_DEN - LW_SLACK);   // unit = one source level
+        return e <= tol && -e <= tol;
+    }
     double e = 100.0 * ms * (double)(float)y - (30.0 * (double)r + 59.0 * (double)g + 11.0 * (double)b);
-    return e <= 100.0 && -e <= 100.0;
+    return e <= 100.0 && -e <= 100.0;   // |y - T/(100 ms)| <= 1/ms
 }
 template <class S_, class D_> static typename std::enable_if<!chan<S_>::integral && chan<D_>::integral, bool>::type lum_ok(S_ r, S_ g, S_ b, D_ y) {
     double md = (double)chan<D_>::hi();
@@ -190,6 +225,13 @@ template <class S_, class D_> static typename std::enable_if<!chan<S_>::integral
 void h_lum_unit(void) {
     SC r = scs::sym(0); SC g = scs::sym(1); SC b = scs::sym(2);
     DC y = gil::semantic_at_c<0>(conv(csx<CS_RGB, SP>::mk(r, g, b)));
+    if (sizeof(SC) == 1 && dcs::integral && sizeof(DC) > 1) {
+        // 8-bit source, deeper integral gray: the unit is the 8-bit level.  Proved as  y == channel_convert<DC>(y8)  with y8 the gray8 result of the
+        // same pixel, and y8 within one unit (steps A/B); channel_convert is an exact rescaling of the 8-bit levels (C06).  The direct
+        // inequality on y = 257*y8 is a multiplier cancellation that had no verdict in 300 s.
+        std::uint8_t y8 = gil::semantic_at_c<0>(conv_to<gil::gray8_pixel_t>(csx<CS_RGB, SP>::mk(r, g, b)));
+        vp_assert(dcs::eq(y, gil::channel_convert<DC>(y8)) && lum_ok(r, g, b, y8), "cc.lum_within_one_unit");
+    } else
     vp_assert(lum_ok(r, g, b, y), "cc.lum_within_one_unit");
 }
 #endif
@@ -225,7 +267,9 @@ void h_premult(void) {
     using RGB = gil::pixel<SC, gil::rgb_layout_t>;
     RGB pm = csx<CS_RGB, RGB>::mk(gil::channel_multiply(gil::semantic_at_c<0>(s), a), gil::channel_multiply(gil::semantic_at_c<1>(s), a), gil::channel_multiply(gil::semantic_at_c<2>(s), a));
     DP e = conv_to<DP>(pm);
-    vp_assert(px_eq(d, e), "cc.from_rgba_is_premultiplied_rgb");
+    int which = vp_param(5);   // 0: whole pixel; 1..DN: destination channel which-1 only (rgba -> cmyk: one double-path channel per query)
+    bool ok = which == 0 ? px_eq(d, e) : dcs::eq(d[(std::size_t)(which - 1)], e[(std::size_t)(which - 1)]);
+    vp_assert(ok, "cc.from_rgba_is_premultiplied_rgb");   // one call site: two calls in an if/else are merged by the compiler and lose their label
 }
 #endif
 
